@@ -11,6 +11,16 @@
  *                                                 loopback TCP connection (hs itself uses tls_connect_socket,
  *                                                 chs tls_connect_fds); "hs=nonet" never matches the model and
  *                                                 is only printed when loopback TCP is unavailable
+ *   hsq  <mode> <flags> <entry>... q:<hex>... name:<hex>
+ *                                              -> "hs=<ok|fail> err=<class> q=<0|1>,... [sq=<0|1>,...]"
+ *        a handshake followed by tls_peer_cert_contains_name(<q>) on the LIVE client connection for every
+ *        q:<hex> word (1..12 of them, C strings).  <flags> letters: v = verify_name on, n = verify_name OFF
+ *        (tls_config_insecure_noverifyname: the handshake completes whatever the name is); s / f / t =
+ *        tls_connect_socket / tls_connect_fds / tls_connect_servername (loopback TCP); m = mutual: the
+ *        client presents the same certificate, the server (verify_client, that certificate as CA) is asked
+ *        the same questions about its peer ("sq=").  Every answer must be the verdict for (certificate,
+ *        queried name) alone - whatever servername, verify_name setting and handshake state are - and 0
+ *        when no peer certificate was recorded (client handshake refused).
  *   hsr  <mode> <script> <entry>... name:<hex> -> "calls=<res>,<res>,..."  one connection, the calls of
  *                                                 <script> (1..8 letters: h = tls_handshake, w = tls_write of
  *                                                 1 byte, r = tls_read of 1 byte) are made one after the other
@@ -281,6 +291,9 @@ static int drive_call(char what, struct tls *cli, struct tls *sconn, int *sdone,
 /* pcli != NULL: use (and keep) this client context instead of a fresh one.
  * script != NULL: hsr op (see top of file) instead of the single handshake */
 static int g_via_servername;	/* set by the hsn op for the next do_handshake */
+static const char *g_hsq_flags;	/* set by the hsq op for the next do_handshake */
+static char **g_hsq_q;		/* queried names */
+static int g_hsq_nq;
 
 /* loopback TCP pair through tls_connect_servername; returns 0 ok, -1 no network, -2 connect failed */
 static int tcp_connect_servername(struct tls *cli, const char *name, int *srv_fd, int *cli_fd)
@@ -316,9 +329,11 @@ static int tcp_connect_servername(struct tls *cli, const char *name, int *srv_fd
 
 static void do_handshake(X509 *x, const char *name, struct tls *pcli, const char *script)
 {
-	struct tls_config *scfg = NULL;
+	struct tls_config *scfg = NULL, *ccfg = NULL;
 	struct tls *srv = NULL, *sconn = NULL, *cli = NULL;
 	int sv[2] = { -1, -1 };
+	const char *hsq = g_hsq_flags;
+	int use_fds = pcli != NULL || (hsq && strchr(hsq, 'f'));
 	BIO *b;
 	char *cpem;
 	long clen;
@@ -342,10 +357,22 @@ static void do_handshake(X509 *x, const char *name, struct tls *pcli, const char
 	scfg = tls_config_new();
 	if (tls_config_set_keypair_mem(scfg, (const uint8_t *)cpem, clen,
 				       (const uint8_t *)g_key_pem, g_key_pem_len) != 0) { stage = "keypair"; goto setup_fail; }
+	if (hsq) {
+		ccfg = tls_config_new();
+		tls_config_insecure_noverifycert(ccfg);
+		if (strchr(hsq, 'n'))
+			tls_config_insecure_noverifyname(ccfg);
+		if (strchr(hsq, 'm')) {
+			if (tls_config_set_keypair_mem(ccfg, (const uint8_t *)cpem, clen,
+						       (const uint8_t *)g_key_pem, g_key_pem_len) != 0 ||
+			    tls_config_set_ca_mem(scfg, (const uint8_t *)cpem, clen) != 0) { stage = "mutual"; goto setup_fail; }
+			tls_config_verify_client(scfg);
+		}
+	}
 	srv = tls_server();
 	cli = pcli ? pcli : tls_client();
 	if (tls_configure(srv, scfg) != 0) { stage = "srvcfg"; goto setup_fail; }
-	if (tls_configure(cli, g_good_cfg) != 0) { stage = "clicfg"; goto setup_fail; }
+	if (tls_configure(cli, ccfg ? ccfg : g_good_cfg) != 0) { stage = "clicfg"; goto setup_fail; }
 	clear_error(cli);	/* an application reads tls_error only after a failure of THIS attempt */
 	if (g_via_servername) {
 		int r;
@@ -362,7 +389,7 @@ static void do_handshake(X509 *x, const char *name, struct tls *pcli, const char
 	set_nonblock(sv[0]);
 	set_nonblock(sv[1]);
 	if (tls_accept_fds(srv, &sconn, sv[0], sv[0]) != 0) { stage = "accept"; goto setup_fail; }
-	if ((pcli ? tls_connect_fds(cli, sv[1], sv[1], name) : tls_connect_socket(cli, sv[1], name)) != 0) {
+	if ((use_fds ? tls_connect_fds(cli, sv[1], sv[1], name) : tls_connect_socket(cli, sv[1], name)) != 0) {
 		/* e.g. OpenSSL refuses the SNI value: happens before any name verification */
 		printf("hs=connect-fail err=%s\n", err_class(tls_error(cli)));
 		goto out;
@@ -398,6 +425,30 @@ connected:
 		if (cdone && cfail)
 			break;	/* client gave up: the server side outcome is irrelevant */
 	}
+	if (hsq) {
+		int i;
+		const char *cls = err_class(tls_error(cli));
+		printf("hs=%s err=%s q=", !cdone ? "stuck" : cfail ? "fail" : "ok", cls);
+		for (i = 0; i < g_hsq_nq; i++)
+			printf("%s%d", i ? "," : "", tls_peer_cert_contains_name(cli, g_hsq_q[i]));
+		if (strchr(hsq, 'm')) {
+			/* let the server finish (it only needs to read what the client already sent) */
+			for (rounds = 0; !sdone && rounds < 50; rounds++) {
+				int r = tls_handshake(sconn);
+				if (r == 0) sdone = 1;
+				else if (r != TLS_WANT_POLLIN && r != TLS_WANT_POLLOUT) { sdone = 1; sfail = 1; }
+			}
+			if (!sdone || sfail || !tls_peer_cert_provided(sconn))
+				printf(" sq=none(%s)", !sdone ? "stuck" : sfail ? "srvfail" : "nocert");
+			else {
+				printf(" sq=");
+				for (i = 0; i < g_hsq_nq; i++)
+					printf("%s%d", i ? "," : "", tls_peer_cert_contains_name(sconn, g_hsq_q[i]));
+			}
+		}
+		putchar('\n');
+		goto out;
+	}
 	if (!cdone)
 		printf("hs=stuck err=%s\n", err_class(tls_error(cli)));
 	else if (cfail)
@@ -414,6 +465,7 @@ out:
 	if (sconn) usual_tls_free(sconn);
 	if (srv) usual_tls_free(srv);
 	if (scfg) tls_config_free(scfg);
+	if (ccfg) tls_config_free(ccfg);
 	if (sv[0] >= 0) close(sv[0]);
 	if (sv[1] >= 0) close(sv[1]);
 }
@@ -575,7 +627,7 @@ int main(void)
 		}
 		if (n >= 3 && n < 64 && strlen(w[1]) == 1 &&
 		    (strcmp(w[0], "cert") == 0 || strcmp(w[0], "hs") == 0 || strcmp(w[0], "chs") == 0 ||
-		     strcmp(w[0], "hsr") == 0 || strcmp(w[0], "hsn") == 0)) {
+		     strcmp(w[0], "hsr") == 0 || strcmp(w[0], "hsn") == 0 || strcmp(w[0], "hsq") == 0)) {
 			int bad = 0;
 			int is_chs = (strcmp(w[0], "chs") == 0);
 			int is_hsr = (strcmp(w[0], "hsr") == 0);
@@ -590,18 +642,52 @@ int main(void)
 				for (k = 2; k < n - 1; k++) w[k] = w[k + 1];
 				n--;
 			}
+			char *qn[12];
+			int nq = 0, qbad = 0;
+			const char *qflags = NULL;
+			if (strcmp(w[0], "hsq") == 0) {
+				/* w[2] = flags; q:<hex> words are taken out of the entry list */
+				int k, j = 2;
+				qflags = w[2];
+				if (n < 5 || strlen(qflags) < 1 || strlen(qflags) > 4 ||
+				    strspn(qflags, "vnsftm") != strlen(qflags)) { puts("bad-op"); continue; }
+				for (k = 3; k < n; k++) {
+					if (strncmp(w[k], "q:", 2) == 0) {
+						uint8_t *qb = NULL;
+						long ql = hc_unhex(w[k] + 2, &qb);
+						if (ql < 0 || nq >= 12 || memchr(qb, 0, ql)) { qbad = 1; free(qb); break; }
+						qn[nq] = malloc(ql + 1);
+						memcpy(qn[nq], qb, ql);
+						qn[nq][ql] = 0;
+						nq++;
+						free(qb);
+					} else
+						w[j++] = w[k];
+				}
+				n = j;
+				if (qbad || nq == 0 || n < 3) {
+					while (nq > 0) free(qn[--nq]);
+					puts("bad-op");
+					continue;
+				}
+			}
 			char *name = parse_name(w[n - 1]);
 			X509 *x;
-			if (!name) { puts("bad-op"); continue; }
+			if (!name) { while (nq > 0) free(qn[--nq]); puts("bad-op"); continue; }
 			x = build_cert(w, n, &bad);
 			if (!x) {
 				puts(bad == 2 ? "build-fail" : "bad-op");
 				free(name);
+				while (nq > 0) free(qn[--nq]);
 				continue;
 			}
 			if (is_hs) {
-				g_via_servername = (strcmp(w[0], "hsn") == 0);
+				g_via_servername = (strcmp(w[0], "hsn") == 0) || (qflags && strchr(qflags, 't'));
+				g_hsq_flags = qflags;
+				g_hsq_q = qn;
+				g_hsq_nq = nq;
 				do_handshake(x, name, is_chs ? pcli_get() : NULL, script);
+				g_hsq_flags = NULL;
 			} else {
 				int rc, contains;
 				const char *cls;
@@ -617,6 +703,7 @@ int main(void)
 			}
 			X509_free(x);
 			free(name);
+			while (nq > 0) free(qn[--nq]);
 			continue;
 		}
 		puts("bad-op");
